@@ -9,11 +9,13 @@ RULE = ("LIFE histories (1..6 update / update --dry / show invocations under a m
         "shared lines with two different patterns, LF/CRLF/CR/mixed files, glob and repeated entries, every config syntax. "
         "After each successful real update the template walker compares every slot with the reference rendering. "
         "distinct_nontrivial = distinct (pattern part set, flag set, set-version kind, clock relation, region kinds, "
-        "line-ending regimes, walk result) of successful real updates that were walked.")
+        "line-ending regimes, walk result) of successful real updates that were walked."
+        " BADCONFIG: a setup.cfg that lists one file twice with its patterns split over both blocks: refused, or every slot is updated.")
 ASSUMPTIONS = ["template model + ref.pattern renderer are the oracle; filler never contains the marker character '@'",
                "value of a {pep440_version} slot is attributed to C15, staleness to C03"]
 COMPONENTS = {"bumpver cli update/show, config, rewrite": "real", "files": "real scratch directory", "clock": "simulated",
-              "VCS": "none or FakeRepo (git personality)"}
+              "VCS": "none or FakeRepo (git personality)",
+              "config (BADCONFIG)": "real loader on a malformed setup.cfg"}
 CAMPAIGNS = [Life("C03", quick=14000, thorough=400000, mode="mix", sv_rate=0.08, invalid_utf8=True),
              BadConfig("C03", "dup_key", quick=400, thorough=8000)]
 
